@@ -13,6 +13,7 @@ A monitor is a python module `gm.mon.cNN` with:
     def run_batch(cases):                # -> list of results, same order; executed in a worker process
         result = {"status": "held"|"violated"|"inconclusive",
                   "key":   str|None,     # coverage key; distinct non-None keys are counted
+                  "keys":  [str],        # optional: several coverage keys reached by this one case
                   "sig":   str,          # violated only: signature matched against known_findings.txt
                   "detail": {...}}       # violated / inconclusive: expected vs observed
     def replay(case):                    # optional; default = run_batch([case])[0]
@@ -98,6 +99,8 @@ def drive(mod, tier, seed, out=sys.stdout):
             k = r.get("key")
             if k is not None:
                 keys.add(k if isinstance(k, str) else json.dumps(k, sort_keys=True))
+            for k2 in r.get("keys") or ():
+                keys.add(k2 if isinstance(k2, str) else json.dumps(k2, sort_keys=True))
             if st == "violated":
                 sig = r.get("sig") or "unspecified"
                 ent = viol.setdefault(sig, [0, None])
